@@ -202,4 +202,8 @@ def run(ctx):
         run.instance(R3, {"fn": pp.short(fid), "obligation": "TxLogEntry.ttl_cutoff_height := Some(slate.ttl_cutoff_height)"}, held=held)
         if not held:
             run.finding(Finding(R3, fid, "log entry no longer records the slate's ttl cutoff", site=f.loc()))
+    R4 = "C17.R4"
+    run.rule(R4, "only a transaction that was never confirmed runs out of time: the expiry step skips entries that are confirmed (also by the kernel step of the same refresh) and entries that were confirmed once and reverted", floor=2)
+    from .shared import expiry_step_scope
+    expiry_step_scope(ctx, R4, ("confirmed", "reverted"))
     run.not_decided += ["full release bookkeeping after expiry (see C05)", "what 'observed height' means beyond the stored last_confirmed_height / node tip"]
